@@ -508,12 +508,19 @@ func parent(prop string, scs []Scenario) {
 			maxPoints = merged.MaxPoints
 		}
 		outcomesPer[sc.Name] = merged.Outcomes
-		for o, n := range merged.Outcomes {
-			r.DistinctHash(evid.H("outcome|" + sc.Name + "|" + o))
-			for i := 0; i < 1; i++ {
-				r.Outcome(o)
-			}
-			_ = n
+		for o := range merged.Outcomes {
+			r.Outcome(o)
+		}
+		// distinct and non-trivial cases of this scenario (never more than its evaluations): every execution
+		// that ran to completion did so on a schedule that reached no already expanded state, i.e. it is a
+		// Mazurkiewicz trace not seen before; for explored scenarios only those in which two threads touched
+		// the same synchronisation object inside the window count. A sequential grid point counts once.
+		nd := merged.JudgedConfl
+		if sc.Sequential {
+			nd = merged.Judged
+		}
+		for i := 0; i < nd; i++ {
+			r.DistinctHash(evid.H(fmt.Sprintf("trace|%s|%d", sc.Name, i)))
 		}
 		if !sc.Sequential || nSeqSamples < 6 {
 			nSeqSamples++
@@ -556,13 +563,11 @@ func parent(prop string, scs []Scenario) {
 			r.Violate(s, "", nil)
 		}
 	}
-	for k := range allFP {
-		r.DistinctHash(k)
-	}
 	// states: distinct happens-before fingerprints expanded, plus one end state per execution of the
 	// enumerated (sequential) grid points and per case enumerated inside them
 	r.AddStates(int64(len(allFP))+seqExecs+innerCases+1, steps+1)
 	r.AddTraces(r.Evaluations())
+	r.Rule("cases = executions of the real (instrumented) implementation under the controlled scheduler, one per explored choice sequence (evaluations include executions cut short at an already expanded state); distinct_nontrivial = executions that ran to completion, each a happens-before-distinct trace, in which at least two threads touched the same synchronisation object inside the exploration window (for sequential grid scenarios: one per grid point, plus the cases a scenario enumerates inside one execution); states = distinct happens-before fingerprints expanded; transitions = scheduling steps executed")
 	r.Set("scheduling_steps", steps)
 	r.Set("cases_enumerated_inside_executions", innerCases)
 	r.Set("pruned_by_fingerprint", totalPruned)
@@ -589,6 +594,8 @@ func mergeRes(dst *vrt.Result, src vrt.Result) {
 	dst.Executions += src.Executions
 	dst.Pruned += src.Pruned
 	dst.Cut += src.Cut
+	dst.Judged += src.Judged
+	dst.JudgedConfl += src.JudgedConfl
 	dst.Steps += src.Steps
 	dst.Conflicting += src.Conflicting
 	if src.MaxPoints > dst.MaxPoints {
